@@ -9,7 +9,7 @@ import pl_common as pc
 from pl_common import pg, PipeObj, close
 
 S = Search('C09', 'random pipelines (2-8 pipe sections, d 0.4-0.9, L 0-3000 incl. zero-length first/interior sections, K 0-2, lift -15..10, '
-                  '0-3 example pumps) x random slurries (D50 0.12-3 mm, incl. fines cut by the pseudo-liquid limit) x flows for 0.5-8 m/s; '
+                  '0-3 example pumps, half of them at 70-100 % speed and 85-100 % impeller) x random slurries (D50 0.12-3 mm, incl. fines cut by the pseudo-liquid limit) x flows for 0.5-8 m/s; '
                   'before and after replacing the pipeline-level Cv / slurry; split and permutation relations; distinct = distinct pipeline+flow')
 rng = random.Random(seed())
 NAMES = ['slurry system head', 'water system head', 'water pump head', 'slurry pump head']
@@ -18,7 +18,7 @@ for i in range(S.budget):
     sp = pc.random_slurry_params(rng)
     try:
         rec = {}
-        pl = pc.make_pipeline(rng, secs, sp, record=rec)
+        pl = pc.make_pipeline(rng, secs, sp, record=rec, offdesign=True)
         stage = 'constructed'
         r = rng.random()
         if r < 0.35:
